@@ -179,13 +179,19 @@ def nontrivial(case, impl):
 
 
 def shrink(case):
-    # drop one member everywhere, then drop single entries
-    for mid in range(case["n"]):
-        c = {"n": case["n"]}
-        for k in ("s1", "s2", "s3"):
-            c[k] = [e for e in case[k] if e[0] != mid]
-        if sum(len(c[k]) for k in ("s1", "s2", "s3")) < sum(len(case[k]) for k in ("s1", "s2", "s3")):
-            yield c
+    """members are independent: first try every single member on its own, then drop entries"""
+    total = sum(len(case[k]) for k in ("s1", "s2", "s3"))
+    present = sorted({e[0] for k in ("s1", "s2", "s3") for e in case[k]})
+    if len(present) > 1:
+        for mid in present:
+            yield {"n": case["n"], "s1": [e for e in case["s1"] if e[0] == mid],
+                   "s2": [e for e in case["s2"] if e[0] == mid], "s3": [e for e in case["s3"] if e[0] == mid]}
+    elif total > 1:
+        for k in ("s3", "s2", "s1"):
+            if case[k]:
+                c = dict(case)
+                c[k] = []
+                yield c
 
 
 def distribution(cases, impl):
